@@ -21,12 +21,23 @@ def one(seed):
             return seed, meta, {"patch": "FAILED"}, {}
         env = dict(os.environ, PMVERIF_REPO=d, PMVERIF_NO_EVIDENCE="1")
         res, rules = {}, {}
-        for p in allp:
-            pr = subprocess.run([f"{V}/check", p, "--root", d], capture_output=True, text=True, env=env)
-            res[p] = pr.returncode
-            rules[p] = sorted({l.split()[1] for l in pr.stdout.splitlines() if l.startswith("  FINDING")})
-            if pr.returncode == 2:
-                rules[p] = ["ERR:" + next((l for l in pr.stdout.splitlines() if "ANALYSIS-ERROR" in l), "?")[:150]]
+        pr = subprocess.run([f"{V}/check", "all", "--root", d], capture_output=True, text=True, env=env)
+        cur = None
+        for l in pr.stdout.splitlines():
+            if l.startswith("[C"):
+                cur = l[1:l.index("]")]
+                res[cur] = 0
+                rules[cur] = []
+            elif l.startswith("  FINDING") and cur:
+                rules[cur].append(l.split()[1])
+            elif l.startswith("VIOLATION property="):
+                res[l.split("=")[1].split()[0]] = 1
+            elif l.startswith("ANALYSIS-ERROR property="):
+                pidx = l.split("=")[1].split(":")[0]
+                res[pidx] = 2
+                rules[pidx] = ["ERR:" + l[:160]]
+        for k in rules:
+            rules[k] = sorted(set(rules[k]))
         return seed, meta, res, rules
     finally:
         shutil.rmtree(d, ignore_errors=True)
